@@ -152,6 +152,7 @@ pub fn mk_params(q: i32, lgwin: i32, favor: bool, catable: bool, appendable: boo
 /// input generators (all from one PRNG state)
 pub fn gen_input(rng: &mut Rng, n: usize, kind: u64) -> Vec<u8> {
     let mut v = Vec::with_capacity(n);
+    if kind == 5 { return gen_dict_text(rng, n); }
     match kind % 5 {
         0 => { for _ in 0..n { v.push(rng.next() as u8); } } // incompressible
         1 => { // text-like with long-range repeats
@@ -170,6 +171,33 @@ pub fn gen_input(rng: &mut Rng, n: usize, kind: u64) -> Vec<u8> {
             for _ in 0..n { v.push(b"abcd"[(rng.below(4)) as usize]); }
         }
     }
+    v
+}
+
+/// kind 5: text made of words of brotli's STATIC dictionary. The vocabulary changes every 192 KiB
+/// (8 disjoint word groups, a group recurs only after 1.5 MiB and by then has left the match
+/// finders' buckets), so first occurrences — encoded as static-dictionary references, i.e. as
+/// distances beyond the encoder's idea of its position — occur throughout the input.
+fn gen_dict_text(rng: &mut Rng, n: usize) -> Vec<u8> {
+    use brotli_decompressor::dictionary::{kBrotliDictionary, kBrotliDictionaryOffsetsByLength, kBrotliDictionarySizeBitsByLength};
+    let mut words: Vec<&[u8]> = vec![];
+    for len in 5..=12usize {
+        let cnt = 1usize << kBrotliDictionarySizeBitsByLength[len];
+        let off = kBrotliDictionaryOffsetsByLength[len] as usize;
+        for w in 0..cnt { words.push(&kBrotliDictionary[off + w * len..off + (w + 1) * len]); }
+    }
+    // a fixed shuffle (from the case's own PRNG) and 8 groups
+    for i in (1..words.len()).rev() { let j = rng.below(i as u64 + 1) as usize; words.swap(i, j); }
+    let per = words.len() / 8;
+    let mut v = Vec::with_capacity(n + 16);
+    while v.len() < n {
+        let seg = v.len() / (192 << 10);
+        let g = (seg * 3) % 8;
+        let w = words[g * per + rng.below(per as u64) as usize];
+        v.extend_from_slice(w);
+        v.push(if rng.chance(1, 12) { b'\n' } else { b' ' });
+    }
+    v.truncate(n);
     v
 }
 
@@ -670,6 +698,7 @@ fn run_shard(args: &Args, task: usize) {
         }
         for (a, b) in lines { corr.case(&a, &b); }
     }
+    let mut pool_l: Pool = brotli::enc::new_work_pool(2);
     let nsearch = if thorough { 6400 } else { 400 };
     {
         let mut pool: Pool = brotli::enc::new_work_pool(1 + (task * 7) % 16);
@@ -679,6 +708,17 @@ fn run_shard(args: &Args, task: usize) {
             search_case(&c, &mut rep, &mut pool, &mut rng);
             if rep.samples.len() < 1 { rep.sample(c.json("")); }
         }
+    }
+    // ---- sparse "large prefix" class: 2–3 MiB of static-dictionary text, window 4–16 MiB, so that a
+    // job starts MiBs into the input with its whole prefix inside the window and keeps emitting
+    // static-dictionary references (distance = f(stream position)): the job's position must be the
+    // decoder's. Reduced run set (thread-per-job at the bound, inline, pool): decode + byte identity.
+    let nlarge = if thorough { 3 } else if task < 6 { 1 } else { 0 };
+    for k in 0..nlarge {
+        let mut rng = Rng::new(seed ^ 0x1A26E ^ ((task as u64) << 20) ^ ((k as u64) << 36));
+        let c = Case { q: *rng.pick(&[5, 9, 5, 9, 6, 7]), lgwin: rng.range(22, 24) as i32, large: false, favor: rng.chance(1, 2), catable: rng.chance(1, 4), appendable: rng.chance(1, 4), magic: rng.chance(1, 4),
+            t: rng.range(2, 3) as usize, n: rng.range(2 << 20, 3 << 20) as usize, kind: 5, dseed: rng.next(), size_hint: 0 };
+        large_case(&c, &mut rep, &mut pool_l);
     }
     // ---- C06 bonus: the REAL pool under the deterministic scheduler shim with REAL compression
     // jobs: random schedules (uniform / sticky / spurious wake-ups) must give the bytes of the
@@ -729,4 +769,30 @@ fn sched_run(params: &BrotliEncoderParams, input: &[u8], t: usize, cap: usize, w
     let (_sched, trace, stuck) = vs::uninstall();
     if body.is_err() || stuck || trace.iter().any(|x| x.contains("PANIC")) { return None; }
     Some(outs)
+}
+
+fn large_case(c: &Case, rep: &mut Report, pool: &mut Pool) {
+    let (params, input) = (c.params(), c.input());
+    let bound = BrotliEncoderMaxCompressedSizeMulti(c.n, c.t);
+    rep.evaluations += 1; rep.nontrivial += 1;
+    rep.count("large_prefix.cases");
+    rep.count(&format!("q.{}", c.q));
+    let mut runs = vec![];
+    for (sp, name) in [(Spawner::Threads, "threads"), (Spawner::Inline, "inline"), (Spawner::PoolFresh, "pool-reused")] {
+        let o = run_multi(sp, &params, &input, c.t, bound, if sp == Spawner::PoolFresh { Some(&mut *pool) } else { None });
+        beat();
+        let extra = format!(",\"spawner\":\"{}\",\"out_capacity\":{},\"result\":\"{}\"", name, bound, o.class);
+        if o.class == "panic" { rep.violation("multi:panic:other", &format!("CompressMulti panicked: {}", o.msg), c.json(&extra)); }
+        else if !o.returned { rep.violation("multi:input-not-returned:on-error", "the input was not handed back", c.json(&extra)); }
+        if o.class == "ok" {
+            rep.count("result.ok");
+            if sp == Spawner::Threads {
+                match decode_ok(&o.bytes, false, &input) { Ok(()) => rep.count("decoded.both"), Err(e) => rep.violation("multi:ok-wrong-data:large-prefix", &format!("success reported but the {} bytes do not decode to the {} byte input: {}", o.bytes.len(), input.len(), e), c.json(&extra)) }
+            }
+        } else if o.class != "panic" { rep.violation("multi:sized-not-ok", &format!("buffer of the advertised maximum {} and quality >= 2 but the call failed ({})", bound, o.class), c.json(&extra)); }
+        runs.push(o);
+    }
+    if runs.iter().all(|o| o.class != "panic") && !(runs[0].class == runs[1].class && runs[0].bytes == runs[1].bytes && runs[1].class == runs[2].class && runs[1].bytes == runs[2].bytes) {
+        rep.violation("multi:spawner-differs", "thread-per-job / inline / reused pool disagree on a large input", c.json(""));
+    }
 }
